@@ -157,7 +157,7 @@ def cases(tier, seed):
             yield ("typed-string", k, v)
     for k in range(6):
         yield ("type-constructors", k, None)
-    for k in range(3):
+    for k in range(5):
         yield ("pulse-like-names", k, None)
     for k, name in enumerate(IDEAL):
         yield ("explicit-none", k, name)
@@ -289,6 +289,18 @@ def check_case(case):
             PC = h.paramclass(type("PCls", (), {n: h.Param(dtype=int, desc=n, default=i + 1) for i, n in enumerate(names)}))
             E = h.ExternalModule(name="PEp", port_list=[h.Inout(name="a")], paramtype=PC, desc="", domain="pd")
             m.e = E(PC())(a=m.a)
+        elif k in (3, 4):
+            # parameter names with leading / trailing underscores, dunder-like, keyword-like - in a param-class and in a dict
+            names = ["_fingers", "_corner", "__x", "w_", "_", "__dunder__", "m"]
+            if k == 3:
+                PC = h.paramclass(type("PUnd", (), {n: h.Param(dtype=int, desc=n, default=i + 1) for i, n in enumerate(names)
+                                                   if not n.startswith("__")}))
+                names = [n for n in names if not n.startswith("__")]      # (the param-class decorator leaves `__names` alone)
+                E = h.ExternalModule(name="PEu", port_list=[h.Inout(name="a")], paramtype=PC, desc="", domain="pd")
+                m.e = E(PC())(a=m.a)
+            else:
+                E = h.ExternalModule(name="PEud", port_list=[h.Inout(name="a")], paramtype=dict, desc="", domain="pd")
+                m.e = E({n: i + 1 for i, n in enumerate(names)})(a=m.a)
         else:
             m.b = h.Signal()
             m.e = h.PhysicalResistor(w=1 * h.prefix.µ, l=2 * h.prefix.µ)(p=m.a, n=m.b)
